@@ -1490,6 +1490,110 @@ func c13Cases() []c13Case {
 	return cs
 }
 
+// c13Storm: start / Shutdown cycles on a datagram server whose socket always has a query ready, Shutdown
+// called at a seeded instant a few microseconds after the start - from several goroutines with a server
+// each. No hook steers these runs: what they reach is the windows no hook point lies in (between two
+// lock operations of the read loop, say), by sheer repetition. Every Shutdown returns, every serve call
+// returns nil.
+func c13Storm(w *core.W, j int) {
+	real := j%2 == 1
+	kind := "pc-sim"
+	if real {
+		kind = "udp-real"
+	}
+	cycles := 300
+	if w.Tier == "thorough" {
+		cycles = 2500
+	}
+	q := new(dns.Msg)
+	q.SetQuestion("storm.example.", dns.TypeA)
+	query, _ := q.Pack()
+	var failed atomic.Bool
+	var done atomic.Int64
+	var wg sync.WaitGroup
+	for t := 0; t < 4; t++ {
+		wg.Add(1)
+		go func(t int) {
+			defer wg.Done()
+			r := w.Rng(j, t)
+			for c := 0; c < cycles && !failed.Load(); c++ {
+				var pc net.PacketConn
+				stopFlood := func() {}
+				if real {
+					u, err := net.ListenPacket("udp", "127.0.0.1:0")
+					if err != nil {
+						return
+					}
+					pc = u
+					var stop atomic.Bool
+					var fwg sync.WaitGroup
+					if cl, err := net.Dial("udp", u.LocalAddr().String()); err == nil {
+						fwg.Add(1)
+						go func() {
+							defer fwg.Done()
+							defer cl.Close()
+							for !stop.Load() {
+								cl.Write(query)
+							}
+						}()
+					}
+					stopFlood = func() { stop.Store(true); fwg.Wait() }
+				} else {
+					sp := netsim.NewPacketConn()
+					sp.Flood, sp.DropWrites = query, true
+					pc = sp
+				}
+				started := make(chan struct{})
+				srv := &dns.Server{PacketConn: pc, ReadTimeout: time.Hour, NotifyStartedFunc: func() { close(started) },
+					Handler: dns.HandlerFunc(func(rw dns.ResponseWriter, req *dns.Msg) {})}
+				serveErr := make(chan error, 1)
+				go func() { serveErr <- srv.ActivateAndServe() }()
+				select {
+				case <-started:
+				case <-time.After(c13Watch):
+					stopFlood()
+					w.Inconclusive("c13-storm-server-did-not-start")
+					return
+				}
+				for spin := r.IntN(400); spin > 0; spin-- {
+					runtime.Gosched()
+				}
+				shut := make(chan error, 1)
+				go func() { shut <- srv.Shutdown() }()
+				wit := map[string]any{"transport": kind, "cycle": c, "goroutine": t}
+				select {
+				case err := <-shut:
+					if err != nil {
+						failed.Store(true)
+						w.Violation("C13/shutdown-error/storm/"+kind, fmt.Sprintf("Shutdown of a started, busy datagram server: %v", err), wit)
+					}
+				case <-time.After(c13Watch):
+					failed.Store(true)
+					stopFlood()
+					w.Violation("C13/shutdown-does-not-return/storm/"+kind, fmt.Sprintf("cycle %d: Shutdown of a datagram server that was reading a steady stream of queries did not return within %v", c, c13Watch), wit)
+					return
+				}
+				select {
+				case err := <-serveErr:
+					if err != nil {
+						failed.Store(true)
+						w.Violation("C13/serve-returns-error/storm/"+kind, fmt.Sprintf("the serve call returned %v after a graceful Shutdown", err), wit)
+					}
+				case <-time.After(c13Watch):
+					failed.Store(true)
+					w.Violation("C13/serve-does-not-return/storm/"+kind, "the serve call did not return after Shutdown had", wit)
+				}
+				stopFlood()
+				done.Add(1)
+			}
+		}(t)
+	}
+	wg.Wait()
+	w.Eval(1)
+	w.Count("storm_cycles_"+kind, int(done.Load()))
+	w.NontrivialStr("storm", kind, fmt.Sprint(j))
+}
+
 func c13Scripted(w *core.W, j int) {
 	cs := c13Cases()
 	c := cs[j%len(cs)]
@@ -1512,14 +1616,15 @@ func init() {
 			return n * 2
 		}, c13Scripted},
 		section{"random", tiered(150, 5000), c13Random},
+		section{"storm", tiered(4, 24), c13Storm},
 	)
 	core.Register(&core.Monitor{
 		ID: "C13", Level: "exploration", Plan: plan, Run: run, Race: true, Terminates: true, MaxParallel: 8, CaseTimeout: 240e9,
 		Rule: fmt.Sprintf("%d scripted scenarios (each run 2x quick / 12x thorough): transports {tcp-sim, pc-sim, tls-sim over netsim; tcp/udp real loopback} x Shutdown steered against every hook point in both release orders with 0/1/3 requests, "+
-			"0..3 held handlers with plain and context-expiring shutdown, misuse (shutdown unstarted, second start, 4 concurrent shutdowns, restart), failed starts, pauses inside SetReadDeadline, a NotifyStartedFunc that does not return while a second start and a context-bound Shutdown are made; plus seeded random hook delays with 1..6 concurrent clients; "+
+			"0..3 held handlers with plain and context-expiring shutdown, misuse (shutdown unstarted, second start, 4 concurrent shutdowns, restart), failed starts, pauses inside SetReadDeadline, a NotifyStartedFunc that does not return while a second start and a context-bound Shutdown are made; plus seeded random hook delays with 1..6 concurrent clients; unsteered start/Shutdown storms (4 goroutines x 300 cycles quick / 2500 thorough per case) on a simulated and a real datagram socket that always has a query ready; "+
 			"offline checker over the logical-clock event log (handler enter/exit vs shutdown return, replies delivered, serve return nil, goroutine/connection leaks); race detector on; non-trivial = distinct (transport, scenario, observed event order)", n),
 		Assumptions: []string{"liveness restated as bounded progress: an operation that normally takes microseconds not finishing within 15 s is 'does not return'",
 			"read/idle timeouts are set to 1 h so that a re-armed read deadline cannot be masked by the defaults"},
-		MinObserved: []string{"scenarios", "scenarios_tcp-sim", "scenarios_pc-sim", "scenarios_tls-sim", "scenarios_tcp-real", "scenarios_udp-real", "hook:shutdown.unlocked", "hook:tcp.accepted", "hook:udp.read"},
+		MinObserved: []string{"scenarios", "scenarios_tcp-sim", "scenarios_pc-sim", "scenarios_tls-sim", "scenarios_tcp-real", "scenarios_udp-real", "hook:shutdown.unlocked", "hook:tcp.accepted", "hook:udp.read", "storm_cycles_pc-sim", "storm_cycles_udp-real"},
 	})
 }
